@@ -1,27 +1,40 @@
 PROPS["C19"] = dict(
     pkg="p_errors", hooks=[], level="exploration", design="DESIGN.md §4 C19",
     technique="exhaustive cross-product of class x other class x wrap-text list (depth 0..4) x embedding level x object x gRPC "
-              "code x message, systematic message sizes around powers of two up to 64 KiB, batches of chains built before any "
+              "code x message, exhaustive lists of level forms (several %w, errors.Join with non-class side errors, inner GRPCWrap), systematic message sizes around powers of two up to 64 KiB, batches of chains built before any "
               "is checked + rapid message texts, objects, sizes and batches; relational oracle",
     rule="chain case = (class with a gRPC code, list of 0..4 (thorough: exhaustive 0..5, rapid 0..6) fmt.Errorf(\"%s%w%s\") levels with verbatim pre/post texts, optional "
          "errors.EmbedObject at one level 0..depth, object); checked: Is(GRPCWrap(e), class), not Is(GRPCWrap(e), k) for each of "
          "the 11 other distinct class values (incl. ErrClosed, ErrCommunication), GRPCWrap(GRPCWrap(e)) == GRPCWrap(e) with the "
          "same code, ExtractObject true and JSON-equal object directly after EmbedObject, after all wraps, after GRPCWrap and "
-         "after the second GRPCWrap - all of it only after the chain, GRPCWrap(e) and GRPCWrap(GRPCWrap(e)) have been created. A "
+         "after the second GRPCWrap - all of it only after the chain, GRPCWrap(e) and GRPCWrap(GRPCWrap(e)) have been created. "
+         "A level is not only a single-%w fmt.Errorf: it can be a fmt.Errorf with several %w verbs or an errors.Join whose other operands "
+         "(1..3 side branches, before or after the branch holding the class) are errors that are NOT classes of the library and match none "
+         "with errors.Is - context.Canceled, context.DeadlineExceeded, io.EOF (bare or wrapped once with %w) and errors.New(text) - so the "
+         "chain is a tree with exactly one class in it; and a level can be errors.GRPCWrap itself (layered chains: a lower layer already "
+         "converted its error for the wire, or it arrived from a downstream gRPC call, and %w wrapping / side branches / EmbedObject continue "
+         "above it before GRPCWrap is applied again at the top). The same checks apply to every such tree (unit trees: every list over 18 level "
+         "forms = plain fmt, GRPCWrap, {two-%w fmt, Join} x {class branch first, last} x 4 side kinds, to depth 3 (thorough 4) x 10 classes x "
+         "(no object + object at every level); rapid: 60% of the chains draw each level from plain 30% / GRPCWrap 20% / several-%w 30% / Join 20%). A "
          "chain may carry a target length: err.Error() of the finished chain is padded with ASCII to exactly that many bytes, the "
          "padding sitting in a wrap text inside or outside the embedding, in the object's string, in many array elements or in "
          "many fields (systematic: 19 targets 100..65537 around 256/1024/4096/16384/65536 x 5 places x embedding levels; rapid: "
          "power of two +-64 or log-uniform up to 70000 in 20% of the chains). batch case = 2..8 chains with distinct objects: "
          "every chain is built (GRPCWrap per chain or after all are built) before the first result is looked at, then each is "
          "checked like a single chain (systematic: sizes 2..8 x depth 0..2 x embedding inner/outer x GRPCWrap order; rapid: 20% "
-         "of the cases). code case = (one of the 17 gRPC codes, message): for a non-OK code exactly one distinct class "
+         "of the cases). Twin batches: two chains whose messages are byte-identical but whose classes differ - 'p<text of A>, <text of B>q' built once "
+         "as a %w chain around A with B's text in the level-0 Post text and once around B with A's text in the level-0 Pre text (class texts are "
+         "legitimate message texts) - in both construction orders (systematic: all 90 ordered class pairs x no object / object above level 0 or 1 x "
+         "GRPCWrap order; rapid: a third of the batches get one such pair); only the %w structure may decide the class. code case = (one of the 17 gRPC codes, message): for a non-OK code exactly one distinct class "
          "k has Is(status.Error(c,msg), k) and FromGRPCError is non-nil (OK: status.Error is nil, nothing asserted). "
          "Exhaustive: 10 classes x every list over 8 text styles up to the depth in exhaustive_parts x (no embedding + every level x 3 objects), and 17 "
          "codes x 13 messages; rapid: texts from ASCII/unicode/JSON fragments/colons/%/ESC/\"json\"/\"\\x1bjso\" pieces and "
          "arbitrary strings, nested objects whose strings may contain the complete marker (JSON escapes ESC). Excluded: the "
          "complete marker \\x1bjson in a wrap text, also when it would only arise across a concatenation boundary (then the "
          "level's texts are replaced by \"[\" \"]\", class text_would_complete_marker_replaced) - EmbedObject's precondition and "
-         "ExtractObject's two-marker format; chains that contain more than one class (GRPCStatusCode's fallback iterates a map); "
+         "ExtractObject's two-marker format (checked on the assembled message of the level, side texts included); chains that contain more than one "
+         "class (GRPCStatusCode's fallback iterates a map) - therefore side branches never hold a class, an error that Is a class "
+         "(syscall.Errno ...) or a gRPC status; custom error types with their own Is/As/Unwrap; "
          "invalid UTF-8. non-trivial = chain with >= 1 wrap level or an embedded object, or a batch with >= 2 embedded objects, or a non-OK code; distinct = FNV hash of "
          "the JSON form of the case",
     assumptions=["the classes that have a gRPC code are the ten named in the errorsToCode table at the pinned commit (fixed list, "
@@ -30,9 +43,14 @@ PROPS["C19"] = dict(
                  "nothing is asserted about which code a class gets, only the relations of the C19 statement; in particular the "
                  "text of GRPCWrap(e) is not compared with e.Error() - a lost or altered text is reported only through "
                  "ExtractObject (false or a different object)",
-                 "an error value and its embedded object must not depend on errors created after it (batches)"],
+                 "an error value and its embedded object must not depend on errors created after it (batches)",
+                 "'any chain of wrapping around it' is read to include the standard library's other %w forms (several %w verbs, errors.Join) "
+                 "as long as the class is the only class in the tree, and chains in which GRPCWrap (idempotent by the statement) was already "
+                 "applied at a lower layer; verified first that the unchanged library keeps class, exclusiveness, idempotence and the object "
+                 "for all of these shapes"],
     units=[
         dict(name="exhaustive", run="^TestC19Exhaustive$", shards=(16, 16), timeout=(200, 1200)),
+        dict(name="trees", run="^TestC19ExhaustiveTrees$", shards=(8, 16), timeout=(200, 1200)),
         dict(name="rapid", run="^TestC19Rapid$", checks=(5000, 100000), shards=(2, 16), timeout=(200, 1200)),
     ],
 )
@@ -43,5 +61,7 @@ LEVEL_TEXT["C19"] = (
     "codes is enumerated, message lengths are driven to the bytes around every power of two up to 64 KiB, batches of up to 8 errors "
     "are built before any of them is inspected, and random texts, objects, sizes and batches are added on top; each chain is checked for class preservation, absence of "
     "every other class, idempotence of GRPCWrap and object extraction. No counterexample among the cases counted in the evidence; "
-    "not a proof for other wrapping forms (errors.Join, custom error types) or deeper chains."
+    "error trees built with several %w verbs and errors.Join around one class (side branches holding context errors, io.EOF, plain errors) "
+    "and layered chains with GRPCWrap at inner levels are enumerated to depth 3 as well; "
+    "not a proof for other wrapping forms (custom error types, several classes in one tree) or deeper chains."
 )
